@@ -1652,6 +1652,19 @@ func corpus() [][]opT {
 			{Kind: "AddFK", T: "t2", U: "f0", Cols: []string{"c1"}, Parent: "t1", PCols: []string{"c0"}}, {Kind: "RenameTable", T: "t1", U: "t3"}},
 		// known: key flag of a keyless table with composite UNIQUE NOT NULL index
 		{ct("t3", []string{}, cd("c4", 2, false), i("c3", false)), {Kind: "CreateIndex", T: "t3", U: "i1", Cols: []string{"c4", "c3"}, Uniq: true}},
+		// known: ORDINAL_POSITION counts the hidden column of a functional index
+		{ct("t0", []string{}, i("c0", true), i("c1", true)), {Kind: "CreateFnIndex", T: "t0", U: "i0", C: "c0"},
+			{Kind: "AddColumn", T: "t0", C: "c2", Ty: 1, Null: true}, {Kind: "DropIndex", T: "t0", U: "i0"}, {Kind: "AddColumn", T: "t0", C: "c3", Ty: 2, Null: true}},
+		// known: SHOW CREATE TABLE lists the key parts in column order once a functional index exists
+		{ct("t1", []string{"c0", "c2"}, i("c2", false), cd("c0", 2, false)), {Kind: "CreateFnIndex", T: "t1", U: "i2", C: "c2"}},
+		// composite primary key whose part order differs from the column order: declared directly, and via DROP + ADD PRIMARY KEY
+		{ct("t3", []string{"c1", "c0"}, i("c2", true), i("c0", false), i("c1", false)), {Kind: "DropPK", T: "t3"},
+			{Kind: "AddPK", T: "t3", Cols: []string{"c1", "c2"}}, {Kind: "AddColumn", T: "t3", C: "c4", Ty: 3, Null: true, Pos: 1}},
+		// known: SHOW FULL COLUMNS Collation, SHOW INDEXES Sub_part; prefix lengths stay positional when a key part is dropped
+		{ct("t0", []string{"c0"}, i("c0", false), cd("c1", 4, false), cd("c2", 3, true)),
+			{Kind: "CreateIndex", T: "t0", U: "i0", Cols: []string{"c1", "c2"}, Pre: []int{3, 0}},
+			{Kind: "CreateIndex", T: "t0", U: "i1", Cols: []string{"c2"}, Pre: []int{4}, Uniq: true},
+			{Kind: "CreateIndex", T: "t0", U: "i2", Cols: []string{"c0"}, Pre: []int{2}}, {Kind: "DropColumn", T: "t0", C: "c1"}},
 		// name clashes between tables and views, foreign key life cycle, primary key changes
 		{ct("t0", []string{}, i("c0", true), i("c1", true)), {Kind: "CreateView", U: "t1", T: "t0", Cols: []string{"c0"}},
 			ct("t1", []string{}, i("c0", true)), {Kind: "RenameTable", T: "t0", U: "t1"}, {Kind: "CreateView", U: "t0", T: "t0", Cols: []string{"c0"}},
